@@ -185,6 +185,14 @@ def writer_reader_codecs_differ(enc):
         return False
 
 
+def reader_text(enc, b):
+    import webencodings
+    try:
+        return webencodings.lookup(enc).codec_info.decode(b, "replace")[0]
+    except Exception:
+        return None
+
+
 def judge(ctx, case):
     from .. import h5
     from html5lib import serializer, html5parser
@@ -229,35 +237,45 @@ def judge(ctx, case):
     A = canon.canon_etree(pb.parse(b))
     got_enc = pb.documentEncoding
     B = h5.parse_doc(plain)[0]
-    metas = head_metas(A)
-    decls = [declares(m, want) for m in metas]
-    if want not in decls:
-        ctx.violation("no-declaration-in-head", case, "encoding %s (%s): head metas %r; bytes %r" % (enc, want, metas[:3], b[:200]))
+    nB = neutralise(B)
+
+    def checks(A, got_enc):
+        """-> (violation class, detail) or (None, 'rewritten' | 'injected')"""
+        metas = head_metas(A)
+        decls = [declares(m, want) for m in metas]
+        if want not in decls:
+            return "no-declaration-in-head", "encoding %s (%s): head metas %r; bytes %r" % (enc, want, metas[:3], b[:200])
+        others = [d for d in decls if d not in (None, want)]
+        if others:
+            return "other-declaration-left-in-head", "encoding %s: head still declares %r: %r" % (enc, others, metas[:4])
+        if got_enc is not None and got_enc != want:
+            return "sniffed-encoding-differs", "declared %s (%s) but documentEncoding is %s; bytes %r" % (enc, want, got_enc, b[:200])
+        # 4. same tree up to the declaration
+        nA = neutralise(A)
+        if nA == nB:
+            return None, "rewritten_in_place"
+        if nA == with_injected(nB):
+            return None, "injected"
+        return "tree-differs-beyond-the-declaration", "encoding %s: %s" % (enc, canon.diff_text(nB, nA, "unencoded", "encoded"))
+
+    klass, detail = checks(A, got_enc)
+    if klass is None:
+        ctx.count("declaration_found_in_head")
+        ctx.count("sniffed_back")
+        ctx.count(detail)
+        if b.find(b"<meta") > 1024 or b.find(b"<meta") < 0:
+            ctx.count("declaration_beyond_prescan_window")
         return
-    others = [d for d in decls if d not in (None, want)]
-    if others:
-        ctx.violation("other-declaration-left-in-head", case, "encoding %s: head still declares %r: %r" % (enc, others, metas[:4]))
-        return
-    ctx.count("declaration_found_in_head")
-    if got_enc != want:
-        ctx.violation("sniffed-encoding-differs", case, "declared %s (%s) but documentEncoding is %s; bytes %r" % (enc, want, got_enc, b[:200]))
-        return
-    ctx.count("sniffed_back")
-    if b.find(b"<meta") > 1024 or b.find(b"<meta") < 0:
-        ctx.count("declaration_beyond_prescan_window")
-    # 4. same tree up to the declaration
-    nA, nB = neutralise(A), neutralise(B)
-    if nA == nB:
-        ctx.count("rewritten_in_place")
-    elif nA == with_injected(nB):
-        ctx.count("injected")
-    elif writer_reader_codecs_differ(enc) and neutralise(h5.parse_doc(text)[0]) in (nB, with_injected(nB)):
+    if writer_reader_codecs_differ(enc) and reader_text(enc, b) != text:
+        # (only when the two codecs really read these bytes differently)
         # listed finding: the serializer encodes with Python's codec of that name, readers (html5lib included) decode the
-        # label with the WHATWG encoding (big5 -> big5-hkscs, euc-kr -> cp949, iso-8859-1 -> windows-1252 ...);
-        # decoded with the writer's own codec the bytes do give the same tree
-        ctx.known_finding("python-codec-differs-from-labelled-encoding", case, "encoding %s: %s" % (enc, canon.diff_text(nB, nA, "unencoded", "encoded")))
-    else:
-        ctx.violation("tree-differs-beyond-the-declaration", case, "encoding %s: %s" % (enc, canon.diff_text(nB, nA, "unencoded", "encoded")))
+        # label with the WHATWG encoding (big5 -> big5-hkscs, euc-kr -> cp949, iso-8859-1 -> windows-1252, iso-2022-kr and
+        # hz-gb-2312 -> replacement ...); decoded with the writer's own codec the bytes must pass every clause
+        k2, d2 = checks(h5.parse_doc(text)[0], None)
+        if k2 is None:
+            ctx.known_finding("python-codec-differs-from-labelled-encoding", case, "%s: %s" % (klass, detail))
+            return
+    ctx.violation(klass, case, detail)
 
 
 def shard(ctx):
